@@ -36,9 +36,13 @@ try:
             print("MUTANT-INVALID: repository suite fails with this change\n" + r.stdout[-2000:]); sys.exit(4)
         print("suite: passes with the change")
     rc_all = 0
+    # private copy of /verif so that concurrent checks against /repo are not disturbed
+    vcopy = os.path.join(d, "verif")
+    subprocess.check_call(["rsync", "-a", "--exclude", ".git", "--exclude", ".build", "--exclude", ".work", "--exclude", "replays",
+                           "--exclude", "seeded", "--exclude", "evidence", "/verif/", vcopy + "/"])
     for c in a.checks.split(","):
         e = dict(env, VERIF_REPO=dst, VERIF_SEED=a.seed)
-        r = subprocess.run([sys.executable, "/verif/check.py", c, a.tier], env=e, stdout=subprocess.PIPE, stderr=subprocess.PIPE, text=True)
+        r = subprocess.run([sys.executable, os.path.join(vcopy, "check.py"), c, a.tier], env=e, stdout=subprocess.PIPE, stderr=subprocess.PIPE, text=True)
         v = [l for l in r.stdout.splitlines() if l.startswith("VIOLATION")]
         print("%s %s: exit=%d %s" % (c, a.tier, r.returncode, v[0] if v else "(no violation)"))
         if r.returncode == 1:
